@@ -59,13 +59,6 @@ Proof.
 Qed.
 
 (* what set_stream does, for EVERY parser state (no finiteness needed) *)
-Definition accepts (role : N) (cur req : option N) : option bool :=
-  match req with
-  | None => Some true
-  | Some x => match cmp_input_streams role x cur with
-              | None => None | Some Lt => Some false | Some _ => Some true end
-  end.
-
 Lemma set_stream_spec p s :
   match accepts (r_role (sreq p)) (stream p) s with
   | None => set_stream p s = SetPanic
